@@ -19,7 +19,7 @@ PROPERTY = 'C02'
 
 META = {
     'bounds': {'quick': 'ndarray costs n=3; n<=4 individuals with m<=2 objectives + boolean marker; n=3,m=1 with the real crowding_distance calls kept',
-               'thorough': 'ndarray costs n<=4; n=5,m=2; n<=4,m=3; n=6,m=1'},
+               'thorough': 'ndarray costs n=3 (m=2), n=4 (m=1); n=5,m=2; n<=4,m=3; n=6,m=1'},
     'stubs': ['crowding_distance(sub_front) at the end of the sorter replaced by a no-op (ranks do not depend on it; subject of C03) except in the *-crowd configurations',
               'ParetoDominance.compare called through its ite summary (validated against the real method)'],
     'assumptions': ['floats as reals (exact: the sorter only compares)', 'population sizes beyond the bound outside the claim',
@@ -116,6 +116,6 @@ def configs(tier):
         add(5, 1, split=48)
         add(6, 1, split=96)
         add(3, 2, crowd=True)
-        add(4, 2, marker='real', container='ndarray', split=64)
+        add(4, 1, marker='real', container='ndarray', split=64)
         add(3, 2, crowd=True, marker='real', container='ndarray', split=32)
     return out
